@@ -124,6 +124,14 @@ def dump(dm):
     }
 
 
+def exact_cells(dm):
+    """Every cell as an exact Python number (an int64 beyond 2**53 is not representable as a float)."""
+    def one(x):
+        x = x.item() if hasattr(x, "item") else x
+        return "nan" if isinstance(x, float) and x != x else x
+    return [[one(x) for x in row] for row in dm.matrix.to_numpy(dtype=object)]
+
+
 def bits(a):
     return np.ascontiguousarray(np.asarray(a, dtype=float)).view(np.int64)
 
@@ -131,26 +139,33 @@ def bits(a):
 def run_transform(case):
     """case: dm fields + 'tf' config (+ 'nan' cells).  -> dumps before/after as plain lists."""
     try:
-        mtx = np.array(case["matrix"], dtype=float)
-        for (i, j) in case.get("nan", []):
-            mtx[i, j] = np.nan
-        dm = I.mkdm(mtx, list(case["objectives"]), weights=list(case["weights"]),
-                    alternatives=list(case["alternatives"]), criteria=list(case["criteria"]))
+        if case.get("nan"):
+            mtx = np.array(case["matrix"], dtype=float)
+            for (i, j) in case.get("nan", []):
+                mtx[i, j] = np.nan
+            dm = I.mkdm(mtx, list(case["objectives"]), weights=list(case["weights"]),
+                        alternatives=list(case["alternatives"]), criteria=list(case["criteria"]))
+        else:
+            dm = I.mk(case)        # direct or derived, float or integer-typed criteria
         before = dump(dm)
+        exact_before = exact_cells(dm)
         t = build(case["tf"])
         out = t.transform(dm)
         after = dump(out)
+        exact_after = exact_cells(out)
         again = dump(dm)
+        exact_again = exact_cells(dm)
     except Exception as e:  # noqa: BLE001
         return {"error": I.exc_code(e), "exc": repr(e)[:300]}
     same_input = all(np.array_equal(bits(before[k]), bits(again[k])) if k in ("weights", "matrix")
-                     else before[k] == again[k] for k in PARTS)
+                     else before[k] == again[k] for k in PARTS) and exact_before == exact_again
     return {
         "before": {k: (v.tolist() if isinstance(v, np.ndarray) else v) for k, v in before.items()},
         "after": {k: (v.tolist() if isinstance(v, np.ndarray) else v) for k, v in after.items()},
         "weights_bits_equal": bool(before["weights"].shape == after["weights"].shape and
                                    np.array_equal(bits(before["weights"]), bits(after["weights"]))),
         "matrix_bits_equal": bool(before["matrix"].shape == after["matrix"].shape and
-                                  np.array_equal(bits(before["matrix"]), bits(after["matrix"]))),
+                                  np.array_equal(bits(before["matrix"]), bits(after["matrix"])) and
+                                  exact_before == exact_after),
         "input_untouched": bool(same_input),
     }
